@@ -1,6 +1,35 @@
 """C24, C25, C26, C30: the agent's RPC server (spec/AgentIPC.tla, IPCStreams.tla, IPCQuery.tla, MemberFilter.tla, AgentTags.tla)."""
 PROPS = ["C24", "C25", "C26", "C30"]
-CLAIMS = {}
+CLAIMS = {
+    'C24': (
+        'model_checking',
+        'TLC checks the C24 monitors (no effect on the agent and no data-bearing reply or stream record before an error-free reply to a version-1 handshake, resp. -- with an auth key configured -- before an error-free reply to an auth request carrying the right key; every header of another command sent with intact framing while authentication is missing is answered by an error header with its Seq, judged at a close barrier) exhaustively on spec/AgentIPC.tla (every sequence of wire objects up to the bound: 20 commands + an unknown one, bodies valid / wrong / absent / malformed, keyed and unkeyed agent; the model includes the reuse of the header variable and the unconsumed bodies of rejected commands) and on every object of TLC-simulated sequences put on the wire of a real AgentIPC of a real quiet Agent by a raw msgpack client; every line (replies, effects, closure) is validated by TLC against the model.',
+        'Trusts TLC, the raw client and its framing rule (a body belongs to the header whose write it shares), the effect observers (broadcast queues drained through the real GetBroadcasts, LocalMember tags, transport dial gate, overlay accessors for handler / client counts, Serf.State) and the quiet configuration built like quiet.NewNode but handed to agent.Create.',
+        'TLA+ spec (AgentIPC) + TLC exhaustive check of the monitor; TLC-simulated object sequences replayed on the real agent RPC server; TLC trace validation of every object with the property monitor on observed replies and effects',
+        '5 C24',
+    ),
+    'C25': (
+        'model_checking',
+        'TLC checks the C25 monitors exhaustively on spec/IPCStreams.tla (requests stream / monitor / stop / members / query with reused Seqs interleaved with user, member and query events: every header Seq is the Seq of a request sent, every record sits on a stream of its kind, event records are emitted events matching the filter of the registration covering them, in emission order, complete at stop / close unless a burst overflowed the buffer while the client did not read) and on spec/IPCQuery.tla (one query RPC: all orders of ack arrives / response arrives / loop iteration / deadline+close / client stalls and resumes: records are exactly acks and responses that were injected, exactly one done, nothing after it), and on TLC-simulated behaviours of both executed on a real agent through a raw msgpack client (replies injected through NotifyMsg in the real wire format; the yield-instrumented stream loop released one select iteration at a time); every received frame is validated by TLC.',
+        'Trusts TLC, the yield instrumenter and the gate in front of the select, the goroutine-dump test for "blocked in the select / in Send", the raw client, the mirror of the query-response wire format, and that which ready case a Go select takes is uniformly random (a zero-value record after expiry shows with probability >= 1/2 per iteration, so the recorded finding is seen in nearly every run but not in every trace).',
+        'TLA+ specs (IPCStreams, IPCQuery) + TLC exhaustive check of the monitors; TLC-simulated schedules replayed on the real agent (event streams end to end; query stream loop yield-instrumented and scheduled by the harness); TLC trace validation with property monitors on observed frames',
+        '5 C25',
+    ),
+    'C26': (
+        'model_checking',
+        'TLC enumerates every single-pattern members-filtered request of the regex AST domain (spec/Regex.tla RE(d) over {a, b, .} with concatenation, alternation, star, optional; 13 status patterns; 8 invalid patterns per field) plus sampled mixed name/status/tag requests, one RPC per TLC state against a real agent holding 39 members (every name of length <= 3 over {a,b,c}, seeded statuses alive/leaving/left/failed and tag values, missing tags); TLC compares the returned member set with the documented whole-string meaning (Regex!Lang) and checks that an invalid pattern yields no list; laws relating the whole-string matcher, the splitting matcher used for statuses and the model of the code ("^" + expr + "$" without grouping) are checked as ASSUME.',
+        'Trusts TLC, spec/Regex.tla as the meaning of the pattern ASTs, the renderer from ASTs to Go syntax with minimal bracketing, and the population set-up through NotifyJoin / NotifyLeave and leave intents (verified against Serf.Members before the requests).',
+        'TLA+ functional oracle (MemberFilter over Regex) + TLC enumeration of the bounded input domain; every request executed on the real agent through the real IPC; TLC trace validation comparing observed and documented result',
+        '5 C26',
+    ),
+    'C30': (
+        'model_checking',
+        'TLC checks the C30 monitors (an edit whose documented result -- previous tags minus deleted keys plus set keys, set keys winning -- fits the 512-byte limit is accepted and yields exactly that result; after EVERY edit, accepted or rejected, the tags restored by the agent\'s own loader from the tags file equal the tags in effect) exhaustively on spec/AgentTags.tla (3 keys, small values and values of 249 / 250 bytes placed exactly at and one byte over the limit, all edit sequences up to the bound) and on TLC-simulated edit sequences sent as `tags` RPCs to a real agent with a tags file (seeded non-ASCII keys and JSON-hostile values), reloading through agent.Create after every edit; every step is validated by TLC.',
+        'Trusts TLC, the raw client, that agent.Create on the same tags file stands for the next start, and the model\'s size formula (keys of two bytes; mirrored from serf\'s encodeTags: magic byte + msgpack map, raw16 for strings of 32 bytes and more).',
+        'TLA+ spec (AgentTags) + TLC exhaustive check of the monitors; TLC-simulated edit sequences replayed on a real agent with a tags file; TLC trace validation with property monitors on effective and reloaded tags',
+        '5 C30',
+    ),
+}
 import json
 import os
 import re
@@ -308,14 +337,14 @@ def trace_ids(tp):
 
 
 ST_CONST = "CONSTANT SeqIds = {%s}\nCONSTANT MaxSteps = %d\nCONSTANT BufSize = 512\n"
-Q_CONST = "CONSTANT Nodes = {1, 2}\nCONSTANT Pays = {1, 2}\nCONSTANT Cap = 1\nCONSTANT MaxSteps = %d\n"
+Q_CONST = "CONSTANT Nodes = {1, 2}\nCONSTANT Pays = {%s}\nCONSTANT Cap = 1\nCONSTANT MaxSteps = %d\n"
 
 
 def run_c25(ctx, replay):
     binary, replaced = build(ctx, instrumented=True)
     label = gate_label(replaced)
     st_cfg = TRACE_CFG + ST_CONST % ("1, 2, 3", 1000000)
-    q_cfg = TRACE_CFG + Q_CONST % 1000000
+    q_cfg = TRACE_CFG + Q_CONST % ("1, 2", 1000000)
     mcs, mcq = None, None
     if replay:
         v = json.load(open(replay))
@@ -325,11 +354,11 @@ def run_c25(ctx, replay):
                        workers=8, timeout=3000)
         if mcs.violated:
             raise vlib.Inconclusive("IPCStreams violates its own monitor -- spec error, no verdict")
-        mcq = vlib.tlc(ctx, "IPCQuery", Q_CONST % (9 if ctx.thorough() else 7) + "INIT Init\nNEXT Next\nINVARIANT C25QWaived\n",
+        mcq = vlib.tlc(ctx, "IPCQuery", Q_CONST % (("1, 2", 8) if ctx.thorough() else ("1", 7)) + "INIT Init\nNEXT Next\nINVARIANT C25QWaived\n",
                        workers=8, timeout=3000)
         if mcq.violated:
             raise vlib.Inconclusive("IPCQuery violates C25 outside the recorded finding -- spec error, no verdict")
-        r2 = vlib.tlc(ctx, "IPCQuery", Q_CONST % 5 + "INIT Init\nNEXT Next\nINVARIANT C25Q\n", workers=1)
+        r2 = vlib.tlc(ctx, "IPCQuery", Q_CONST % ("1", 5) + "INIT Init\nNEXT Next\nINVARIANT C25Q\n", workers=1)
         if r2.violated != "C25Q":
             raise vlib.Inconclusive("closed-channel finding not reachable in the model")
         ns, ds, nq, dq = (1500, 40, 640, 36) if ctx.thorough() else (160, 30, 96, 30)
@@ -337,7 +366,7 @@ def run_c25(ctx, replay):
         for s in ss:
             if s[-1]["a"] != "close":
                 s.append({"a": "close"})
-        _, qs = vlib.simulate_schedules(ctx, "Gen_IPCQuery", Q_CONST % dq + "INIT GenInit\nNEXT GenNext\n", nq, dq)
+        _, qs = vlib.simulate_schedules(ctx, "Gen_IPCQuery", Q_CONST % ("1, 2", dq) + "INIT GenInit\nNEXT GenNext\n", nq, dq)
         for s in qs:
             if s[-1]["a"] != "end":
                 s.append({"a": "end", "w": 0})
@@ -365,7 +394,7 @@ def run_c25(ctx, replay):
         "exhaustive": bool(mcs),
         "model_constants": "IPCStreams: 2 Seqs, 8 filters, 8 event bursts, all step sequences of length <= %d; IPCQuery: 2 nodes, channel "
                            "capacity 1, all orders of {ack, response, step, expire, stall/unstall, end} of length <= %d; simulation: 3 Seqs, "
-                           "longer sequences, bursts of 600 events with a stalled client" % ((4, 9) if ctx.thorough() else (3, 7)),
+                           "longer sequences, bursts of 600 events with a stalled client" % ((4, 8) if ctx.thorough() else (3, 7)),
         "traces_validated_against_impl": sum(p["traces"] for p in cov_parts.values()),
         "trace_lines": sum(p["lines"] for p in cov_parts.values()),
         "divergences": sum(p["divergences"] for p in cov_parts.values()),
